@@ -191,3 +191,71 @@ func loopInvariantAddr(v ssa.Value, l *Loop) bool {
 	}
 	return false
 }
+
+// LoopConds returns the branch conditions of the loop headers of fn: a guard
+// whose Cond is in this set (with positive polarity) is "the loop is still
+// running", not a filter on the element being processed.
+func LoopConds(fn *ssa.Function) map[ssa.Value]bool {
+	out := map[ssa.Value]bool{}
+	for _, l := range Loops(fn) {
+		if n := len(l.Header.Instrs); n > 0 {
+			if iff, ok := l.Header.Instrs[n-1].(*ssa.If); ok {
+				out[iff.Cond] = true
+			}
+		}
+	}
+	return out
+}
+
+// SkipFilters returns the guards established at b that filter loop elements:
+// b lies in a loop, the guard is not the loop's own condition, and the edge
+// not taken towards b stays inside that loop (so the iteration goes on to the
+// next element without reaching b). Guards whose other edge leaves the loop
+// (reject the whole input, return an error) are not filters.
+func SkipFilters(b *ssa.BasicBlock) []Guard {
+	fn := b.Parent()
+	var inner *Loop
+	for _, l := range Loops(fn) {
+		if l.Body[b] && (inner == nil || len(l.Body) < len(inner.Body)) {
+			inner = l
+		}
+	}
+	if inner == nil {
+		return nil
+	}
+	var out []Guard
+	for _, g := range GuardsAt(b) {
+		if g.If == nil || !inner.Body[g.If.Block()] {
+			continue
+		}
+		if g.If.Block() == inner.Header {
+			continue // the loop condition
+		}
+		other := g.If.Block().Succs[0]
+		if g.Pol {
+			other = g.If.Block().Succs[1]
+		}
+		// does the other edge come back to the header without leaving the loop?
+		seen := map[*ssa.BasicBlock]bool{}
+		var reach func(x *ssa.BasicBlock) bool
+		reach = func(x *ssa.BasicBlock) bool {
+			if x == inner.Header {
+				return true
+			}
+			if seen[x] || !inner.Body[x] {
+				return false
+			}
+			seen[x] = true
+			for _, s := range x.Succs {
+				if reach(s) {
+					return true
+				}
+			}
+			return false
+		}
+		if reach(other) {
+			out = append(out, g)
+		}
+	}
+	return out
+}
